@@ -668,6 +668,84 @@ fn check_roots(t: &mut Tally, scratch: &Path) {
     let _ = std::fs::remove_dir_all(&base);
 }
 
+/// Package directories that are symbolic links to directories kept outside the database (alone,
+/// next to a real directory, next to a link to an incomplete directory and a plain file), and a
+/// '+FILE' that is a link to a file whose size the file system reports as 0 although it has
+/// content (procfs): a link to a complete directory is a sub-directory that contains the three
+/// files, and a metadata entry is what reading the file gives.
+fn check_linked(t: &mut Tally, scratch: &Path, variant: usize) {
+    let base = scratch.join(format!("linked{}", variant));
+    let _ = std::fs::remove_dir_all(&base);
+    let fault = |e: std::io::Error| -> ! { mc_core::run::machinery_fault(&format!("cannot build the scratch database: {}", e)) };
+    let db = base.join("db");
+    let store = base.join("store");
+    std::fs::create_dir_all(&db).unwrap_or_else(|e| fault(e));
+    let proc_file = Path::new("/proc/sys/kernel/ostype");
+    let proc_text = std::fs::read_to_string(proc_file).ok().filter(|s| !s.is_empty());
+    let complete = |dir: &Path, name: &str| {
+        std::fs::create_dir_all(dir).unwrap_or_else(|e| fault(e));
+        for f in MANDATORY {
+            std::fs::write(dir.join(f), content(name, f)).unwrap_or_else(|e| fault(e));
+        }
+        if proc_text.is_some() {
+            std::os::unix::fs::symlink(proc_file, dir.join("+BUILD_INFO")).unwrap_or_else(|e| fault(e));
+        }
+        // a genuinely empty optional file
+        std::fs::write(dir.join("+PRESERVE"), b"").unwrap_or_else(|e| fault(e));
+    };
+    // variant bits: 1 = a second link, 2 = a real complete directory as well, 4 = a link to an
+    // incomplete directory and a plain file
+    let mut want: Vec<String> = vec![];
+    complete(&store.join("one"), "lnk-1.0");
+    std::os::unix::fs::symlink(store.join("one"), db.join("lnk-1.0")).unwrap_or_else(|e| fault(e));
+    want.push("lnk-1.0".into());
+    if variant & 1 == 1 {
+        complete(&store.join("two"), "other-lnk-2.0nb1");
+        std::os::unix::fs::symlink("../store/two", db.join("other-lnk-2.0nb1")).unwrap_or_else(|e| fault(e));
+        want.push("other-lnk-2.0nb1".into());
+    }
+    if variant & 2 == 2 {
+        complete(&db.join("real-3.0"), "real-3.0");
+        want.push("real-3.0".into());
+    }
+    if variant & 4 == 4 {
+        std::fs::create_dir_all(store.join("half")).unwrap_or_else(|e| fault(e));
+        std::fs::write(store.join("half").join("+COMMENT"), b"c\n").unwrap_or_else(|e| fault(e));
+        std::os::unix::fs::symlink(store.join("half"), db.join("half-1.0")).unwrap_or_else(|e| fault(e));
+        std::fs::write(db.join("pkgdb.byfile.db"), b"db").unwrap_or_else(|e| fault(e));
+    }
+    want.sort();
+    t.evals += 1;
+    t.validated += 1;
+    let got = guard(|| {
+        let mut seen: Vec<(String, Result<String, String>, Result<String, String>, Result<String, String>)> = vec![];
+        for p in PkgDB::open(&db).map_err(|e| e.to_string())?.flatten() {
+            let rd = |e: MetadataEntry| p.read_metadata(e).map_err(|e| e.kind().to_string());
+            seen.push((p.pkgname().clone(), rd(MetadataEntry::Desc), rd(MetadataEntry::BuildInfo), rd(MetadataEntry::Preserve)));
+        }
+        seen.sort();
+        Ok::<_, String>(seen)
+    });
+    let wanted: Vec<(String, Result<String, String>, Option<String>, Result<String, String>)> = want.iter().map(|n| (n.clone(), Ok(content(n, "+DESC")), proc_text.clone(), Ok(String::new()))).collect();
+    let ok = match &got {
+        Ok(Ok(seen)) => {
+            seen.len() == wanted.len()
+                && seen.iter().zip(wanted.iter()).all(|(s, w)| s.0 == w.0 && s.1 == w.1 && s.3 == w.3 && match &w.2 {
+                    Some(text) => s.2.as_ref() == Ok(text),
+                    None => true,
+                })
+        }
+        _ => false,
+    };
+    if ok {
+        t.nontrivial += 1;
+        t.outcome(if proc_text.is_some() { "linked/listed-and-read (with a procfs entry)" } else { "linked/listed-and-read" });
+    } else {
+        t.violation(Violation::new("linked", json!({"variant": variant, "links": want}), json!(format!("{:?}", wanted)), json!(format!("{:?}", got)), "symbolic links to complete package directories are package directories; a metadata entry is what reading its '+FILE' gives (also when the file system reports its size as 0)"));
+    }
+    let _ = std::fs::remove_dir_all(&base);
+}
+
 fn tables(t: &mut Tally) {
     // bijection over the 14 '+' files
     for i in 0..14 {
@@ -771,6 +849,7 @@ fn replay(run: &Run, doc: &Value) -> Option<Violation> {
             check_layout(&mut t, &run.scratch_dir(), 0, &l);
         }
         Some("roots") => check_roots(&mut t, &run.scratch_dir()),
+        Some("linked") => check_linked(&mut t, &run.scratch_dir(), c["variant"].as_u64().unwrap_or(0) as usize),
         Some("metadata-history") => {
             let calls: Vec<String> = c["calls"].as_array().map(|a| a.iter().filter_map(|x| x.as_str().map(|s| s.to_string())).collect()).unwrap_or_default();
             metadata_histories_from(&mut t, calls.len(), Some(&calls));
@@ -901,6 +980,12 @@ fn main() {
     let mut t = Tally::new();
     metadata_histories(&mut t, run.pick(3, 4));
     check_roots(&mut t, &scratch);
+    run.bound("linked package directories: 8 databases whose package directories are symbolic links to directories kept elsewhere (one or two links, with and without a real directory, a link to an incomplete directory and a plain file), each with a '+BUILD_INFO' that is a link to a procfs file (size reported as 0) where /proc exists, and an empty '+PRESERVE'");
+    for variant in 0..8 {
+        t.states += 1;
+        t.transitions += 1;
+        check_linked(&mut t, &scratch, variant);
+    }
     tables(&mut t);
     run.merge(t);
     run.finish();
